@@ -28,7 +28,7 @@ EXTENDS Prec, Json, IOUtils
 CONSTANTS Thorough,      \* all triples / longer adjacencies
           SamplePermille \* share of the all-distinct-level triples taken in the quick tier
 
-VARIABLES cs, ts, m
+VARIABLES vCase, vToks, vM
 
 Seed == IF "VERIF_SEED" \in DOMAIN IOEnv THEN atoi(IOEnv.VERIF_SEED) ELSE 1
 
@@ -113,36 +113,36 @@ CaseSep(i) == IF CaseFam(i) = "adj_compact" THEN "" ELSE " "
 ExpectOf(toks) == IF toks = <<>> THEN "reject" ELSE Show(Group(toks))
 
 \* ------------------------------------------------------------ the transition system
-Init == /\ cs \in 1..NC
-        /\ ts = CaseToks(cs)
-        /\ m = MInit(ts)
-Reduce == MustReduce(m) /\ m' = MReduce(m) /\ UNCHANGED <<cs, ts>>
-Shift == ~MustReduce(m) /\ m.rest # <<>> /\ m' = MShift(m) /\ UNCHANGED <<cs, ts>>
+Init == /\ vCase \in 1..NC
+        /\ vToks = CaseToks(vCase)
+        /\ vM = MInit(vToks)
+Reduce == MustReduce(vM) /\ vM' = MReduce(vM) /\ UNCHANGED <<vCase, vToks>>
+Shift == ~MustReduce(vM) /\ vM.rest # <<>> /\ vM' = MShift(vM) /\ UNCHANGED <<vCase, vToks>>
 Next == Reduce \/ Shift
-Spec == Init /\ [][Next]_<<cs, ts, m>>
+Spec == Init /\ [][Next]_<<vCase, vToks, vM>>
 
-AtStart == m = MInit(ts)
-Grouped == ts # <<>>
+AtStart == vM = MInit(vToks)
+Grouped == vToks # <<>>
 
 \* laws ---------------------------------------------------------------------
 \* the cases are inside the module's domain and Group always finds a legal split
-InvDomain == AtStart /\ Grouped => WellFormed(ts) /\ Determined(ts) /\ GroupSplitOk(ts)
+InvDomain == AtStart /\ Grouped => WellFormed(vToks) /\ Determined(vToks) /\ GroupSplitOk(vToks)
 \* Group uses every token exactly once, in order
-InvTokensOnce == AtStart /\ Grouped => Toks(Group(ts)) = ts
+InvTokensOnce == AtStart /\ Grouped => Toks(Group(vToks)) = vToks
 \* the table determines exactly one tree, and it is Group's
-InvUnique == AtStart /\ Grouped => UniqueAdmissible(ts)
+InvUnique == AtStart /\ Grouped => UniqueAdmissible(vToks)
 \* the machine neither loses nor duplicates tokens
-InvConserve == MCount(m) = Len(ts)
+InvConserve == MCount(vM) = Len(vToks)
 \* precedence climbing arrives at the declarative grouping
-InvAgree == Grouped /\ MDone(m) => m.opds = <<Group(ts)>>
+InvAgree == Grouped /\ MDone(vM) => vM.opds = <<Group(vToks)>>
 \* the machine stops only when it is done
-InvProgress == Grouped => MDone(m) \/ ENABLED Next
+InvProgress == Grouped => MDone(vM) \/ ENABLED Next
 \* maximal munch: lossless, maximal, and no multi-character operator is ever split
-InvLex == AtStart /\ CaseChars(cs) # <<>> =>
-            LET ch == CaseChars(cs) IN
+InvLex == AtStart /\ CaseChars(vCase) # <<>> =>
+            LET ch == CaseChars(vCase) IN
             /\ LexLossless(ch) /\ LexMaximal(ch)
             /\ \A j \in 1..Len(Lex(ch)) : Lex(ch)[j] \in SymNames
-InvTable == AtStart /\ cs = 1 => TableIsFunction /\ NamesAreChars /\ NeverSplit
+InvTable == AtStart /\ vCase = 1 => TableIsFunction /\ NamesAreChars /\ NeverSplit
 
 \* ------------------------------------------------------------ emission
 Out == IOEnv.VERIF_OUT
